@@ -86,7 +86,7 @@ class AcceptSweep:
                     except z3.Z3Exception as e:
                         self.undecided.append(dict(n=n, why='z3: ' + str(e)[:60]))
                 ex = explore(f, lambda ctx: [raw_input()], n, budget=4000, time_limit=max(60, min(400, self.time_limit)), kwargs=opts,
-                             long_bound=LONG_BOUND, on_path=on_path)
+                             long_bound=LONG_BOUND, on_path=on_path, on_restart=lambda: None)
                 if ex.status != 'ok':
                     self.undecided.append(dict(n=n, why=ex.status))
         return dict(module=self.modname, findings=self.findings, obligations=self.obligations, undecided=self.undecided,
